@@ -118,16 +118,16 @@ pub fn select(d: Dialect, depth: u32, exec: bool) -> BoxedStrategy<SelectSpec> {
     };
     let part1 = (
         proptest::option::weighted(0.25, prop_oneof![3 => Just(Dist::Distinct), 1 => proptest::collection::vec(1u8..5, 1..3).prop_map(Dist::DistinctOn)]),
-        proptest::collection::vec(item(d, exec), 1..4),
+        proptest::collection::vec(item(d, exec), 1..6),
         proptest::collection::vec(from_item(d, depth, exec), 0..3),
-        proptest::collection::vec(join(d, depth, exec), 0..3),
+        proptest::collection::vec(join(d, depth, exec), 0..4),
+        proptest::collection::vec(small_expr(d), 0..4),
+        proptest::collection::vec(small_expr(d), 0..5),
         proptest::collection::vec(small_expr(d), 0..3),
-        proptest::collection::vec(small_expr(d), 0..3),
-        proptest::collection::vec(small_expr(d), 0..2),
     );
     let part2 = (
         unions,
-        proptest::collection::vec(ord(d, exec), 0..3),
+        proptest::collection::vec(ord(d, exec), 0..4),
         proptest::option::weighted(0.35, 0u64..5),
         proptest::option::weighted(0.25, 0u64..4),
         proptest::option::weighted(
@@ -292,6 +292,10 @@ pub fn fix_select_render(s: &mut SelectSpec, d: Dialect) {
         if d == Dialect::Mysql && j.kind == JoinKind::FullOuter {
             j.kind = JoinKind::Left; // documented panic: "Mysql does not support FULL OUTER JOIN"
         }
+        if d == Dialect::Postgres && j.kind == JoinKind::Cross && !matches!(j.src, FromSpec::Table(0, _)) {
+            // Postgres CROSS JOIN .. ON is a known finding (C08 K1); keep it rare so that it does not mask the rest of such statements
+            j.kind = JoinKind::Inner;
+        }
         if matches!(j.src, FromSpec::Values(..)) {
             j.src = FromSpec::Table(0, Some(4)); // there is no join_values API
         }
@@ -316,6 +320,9 @@ pub fn fix_select_render(s: &mut SelectSpec, d: Dialect) {
             // MySQL knows FOR UPDATE / FOR SHARE only (engine grammar)
             l.ty = if l.ty % 2 == 0 { 0 } else { 2 };
         }
+    }
+    if d != Dialect::Postgres && s.offset.is_some() && s.limit.is_none() {
+        s.limit = Some(9); // MySQL and SQLite have no OFFSET without LIMIT (engine grammar)
     }
     // TABLESAMPLE and index hints are written after the whole FROM list: only with exactly one FROM table (engine grammar)
     if s.from.len() != 1 || !matches!(s.from[0], FromSpec::Table(..)) {
